@@ -398,25 +398,34 @@ class Boom(RuntimeError):
     pass
 
 
+def ot_components(rng, metric, method, ref, dim):
+    """n_components must not exceed the rank of the vectors the SVD sees (ref x dim LOT coordinates, one less per
+    reference point on the sphere, dim for the linear-algebra heuristics): beyond the rank the extra component is an
+    arbitrary null-space direction decided by rounding noise, and 'the same model to 1e-9' is not a meaningful claim."""
+    eff = dim if method in ("HeuristicLinearAlgebra", "approx") else ref * (dim - 1 if metric == "cosine" else dim)
+    return int(rng.randint(2, min(3, eff) + 1)) if eff >= 2 else 1
+
+
 def sc_wasserstein(rng):
     n_cols, dim = int(rng.randint(5, 9)), int(rng.randint(2, 4))
-    im = str(rng.choice(["spmatrix", "spmatrix", "lil", "lil", "generator"]))
+    im = str(rng.choice(["spmatrix", "lil", "generator"], p=[0.5, 0.35, 0.15]))
     method = "LOT_exact"
     if im == "spmatrix":
-        method = str(rng.choice(["LOT_exact", "LOT_exact", "LOT_sinkhorn", "HeuristicLinearAlgebra"]))
+        method = str(rng.choice(["LOT_exact", "LOT_sinkhorn", "HeuristicLinearAlgebra"], p=[0.6, 0.25, 0.15]))
     ref = int(rng.randint(2, 5))
-    kw = {"input_method": im, "method": method, "n_components": int(rng.randint(2, 4)), "random_state": int(rng.randint(1000)),
-          "metric": str(rng.choice(["cosine", "euclidean"])),
+    metric = str(rng.choice(["cosine", "euclidean"]))
+    kw = {"input_method": im, "method": method, "n_components": ot_components(rng, metric, method, ref, dim),
+          "random_state": int(rng.randint(1000)), "metric": metric,
           # small memory sizes force the blockwise paths (a size below one LOT vector divides by zero in transform:
           # not C13's, and it would only make every call of the history raise)
-          "memory_size": str(rng.choice(["400", "1k", "4k", "2G"]))}
+          "memory_size": str(rng.choice(["400", "400", "800", "1k", "2G"]))}
     if method != "HeuristicLinearAlgebra":
         kw["reference_size"] = ref
     cachedir = None
     if rng.rand() < 0.5:
         cachedir = "CACHEDIR"                  # replaced by a private directory by the runner
         kw["cachedir"] = cachedir
-    n_rows = int(rng.randint(6, 14))
+    n_rows = int(rng.randint(8, 20))
     vecs = rng.normal(size=(n_cols, dim))
     if im == "spmatrix":
         fmt = str(rng.choice(["csr", "csc", "coo"]))
@@ -457,8 +466,9 @@ def sc_wasserstein(rng):
 
 def sc_sinkhorn(rng):
     n_cols, dim = int(rng.randint(5, 9)), int(rng.randint(2, 4))
-    kw = {"n_components": int(rng.randint(2, 4)), "random_state": int(rng.randint(1000)), "reference_size": int(rng.randint(2, 5)),
-          "metric": str(rng.choice(["cosine", "euclidean"])), "memory_size": str(rng.choice(["400", "1k", "2G"]))}
+    ref, metric = int(rng.randint(2, 5)), str(rng.choice(["cosine", "euclidean"]))
+    kw = {"n_components": ot_components(rng, metric, "LOT_sinkhorn", ref, dim), "random_state": int(rng.randint(1000)),
+          "reference_size": ref, "metric": metric, "memory_size": str(rng.choice(["400", "1k", "2G"]))}
     if rng.rand() < 0.5:
         kw["cachedir"] = "CACHEDIR"
     vecs = rng.normal(size=(n_cols, dim))
@@ -470,7 +480,7 @@ def sc_sinkhorn(rng):
 
 def sc_approxw(rng):
     n_cols, dim = int(rng.randint(5, 9)), int(rng.randint(2, 4))
-    kw = {"n_components": int(rng.randint(2, 4)), "random_state": int(rng.randint(1000))}
+    kw = {"n_components": ot_components(rng, "euclidean", "approx", 0, dim), "random_state": int(rng.randint(1000))}
     vecs = rng.normal(size=(n_cols, dim))
     X = ot_matrix(rng, int(rng.randint(6, 14)), n_cols, str(rng.choice(["csr", "csc", "coo"])))
     pool = [freeze((ot_matrix(rng, 4, n_cols), {"vectors": vecs})), freeze((X.tocsr()[:3], {"vectors": vecs}))]
